@@ -8,7 +8,6 @@ import (
 	"github.com/go-errors/errors"
 	"github.com/privacybydesign/gabi/big"
 	"github.com/privacybydesign/gabi/gabikeys"
-	"github.com/privacybydesign/gabi/internal/common"
 )
 
 // ProofBuilder is an interface for a proof builder. That is, an object to hold
@@ -141,7 +140,7 @@ func NewProofRandomizers() (map[string]*big.Int, error) {
 	// So we should take it, and hence also its commitment, to fit within the smallest size -
 	// otherwise it will be too big so that we cannot perform the range proof showing
 	// that it is not too big.
-	skRandomizer, err := common.RandomBigInt(gabikeys.DefaultSystemParameters[1024].LmCommit)
+	skRandomizer, err := randomizerAboveRevocationBound(gabikeys.DefaultSystemParameters[1024].LmCommit)
 	if err != nil {
 		return nil, err
 	}
